@@ -141,8 +141,12 @@ def _run_chained(cfg, ctx, nreq, loop, kern, peer, p):
     return out
 
 
+def _code_of(letter):
+    return int(letter[3:]) if letter.startswith('exc') and letter[3:].isdigit() else 2
+
+
 def _delay_of(letter, T):
-    if letter == 'exc2':
+    if letter.startswith('exc') and letter[3:].isdigit():
         return D0
     if letter.startswith('exc@'):
         return float(letter[4:-1]) * T
@@ -207,7 +211,7 @@ def monitors(cfg, obs_list):
             k = len(o.letters) - 1
             arrival = ts[k] + _delay_of(o.letters[-1], T)
             if arrival < ts[k] + T - TOL:
-                if res[0] != 'exc' or res[1] != 'RequestRejectedException' or res[2] != wire.exception_reason(2):
+                if res[0] != 'exc' or res[1] != 'RequestRejectedException' or res[2] != wire.exception_reason(_code_of(o.letters[-1])):
                     out.append(('C08', 'rejected-with-reason', str(res[:3]), i))
                 elif abs(o.t1 - arrival) > TOL or n != k + 1:
                     out.append(('C08', 'immediate-no-retransmission', f'done {o.t1 - arrival:.6f} after the frame, {n} transmissions', i))
@@ -217,12 +221,18 @@ def monitors(cfg, obs_list):
             if len(o.rx) == pieces and o.clean_start:
                 if not (res[0] == 'ok' and res[1] == o.valid_for[0] and n == 1):
                     out.append(('C07' if pieces == 2 else 'C04', 'own-answer-in-time-succeeds', f'{res[0]} with {n} transmissions', i))
+        if o.letters and o.clean_start and len(o.letters) == 1 and i and o.letters[0] == 'valid' and res[0] != 'ok':
+            out.append(('C10', 'next-request-works-at-once', f'request {i + 1}: answered by a conforming frame, outcome {res[:2]}', i))
         # the FIRST transmission is answered in time (conforming frame / exception frame) and nothing else was in flight
         # when the request started: there is no reason for a second transmission, whatever came before on this object
         if o.letters and o.clean_start and len(o.letters) > 1:
             if o.letters[0] in ('valid', 'valid@.5T', 'valid@.6T'):
                 out.append(('C02', 'first-transmission-answered:no-retransmission',
                             f'{n} transmissions although #1 was answered by a conforming frame; outcome {res[:2]}', i))
+                if i:
+                    # "after a completed request / a dropped connection the next request (re)connects and works"
+                    out.append(('C10', 'next-request-works-at-once',
+                                f'request {i + 1}: {n} transmissions although #1 was answered by a conforming frame; outcome {res[:2]}', i))
             elif _delay_of(o.letters[0], T) is not None and _delay_of(o.letters[0], T) < T - TOL:
                 out.append(('C08', 'first-transmission-refused:no-retransmission',
                             f'{n} transmissions although #1 was answered by an exception frame; outcome {res[:2]}', i))
